@@ -22,6 +22,7 @@ const (
 	RespTrans  = "Bt" // a well typed response together with a transient error: a retryable failure
 	WrongTrans = "Xt" // a response of the wrong type together with a transient error: permanent failure, response not stored
 	WrongPerm  = "Xp" // a response of the wrong type together with a permanent error: permanent failure, response not stored
+	WrongNamed = "Xn" // a response of another type that prints like the declared one (same package and type name, other import path)
 	PermWrap   = "Fw" // a permanent error that wraps a non-permanent cause: the outer flag decides, a permanent failure
 )
 
